@@ -22,8 +22,8 @@ PROP = "C09"
 BOUNDS = {
     "quick": {"s1": (2, 0), "s1s": (0, 300), "sk": (0, 3000), "big": (0, 12), "swr": (3, 0), "top": (2, 0),
               "arr": (2, 0), "arrs": (0, 120), "mapk": (2, 150), "mapv": (2, 150)},
-    "thorough": {"s1": (3, 0), "s1s": (0, 2500), "sk": (0, 30000), "big": (0, 100), "swr": (4, 0), "top": (3, 0),
-                 "arr": (3, 0), "arrs": (0, 1500), "mapk": (3, 1500), "mapv": (3, 1500)},
+    "thorough": {"s1": (3, 0), "s1s": (0, 1000), "sk": (0, 15000), "big": (0, 100), "swr": (4, 0), "top": (3, 0),
+                 "arr": (3, 0), "arrs": (0, 1000), "mapk": (3, 1000), "mapv": (3, 1000)},
 }
 LAW_BOUNDS = {"quick": {"preorder": 2, "sort": 2, "fn": 2}, "thorough": {"preorder": 2, "sort": 3, "fn": 3}}
 
@@ -135,7 +135,7 @@ def run(tier, seed):
         states += g.distinct
         transitions += g.generated
         cov["tlc_runs"].append({"module": "SortGen", "family": fam, "MaxLen": bounds[fam][0], "NSample": bounds[fam][1],
-                                "cases": len(cases)})
+                                "cases": len(cases), "wall_s": round(g.wall, 1)})
 
     # ---- render
     runs, slots = [], []      # slots[i]: how the output of run i maps to observations
@@ -247,7 +247,7 @@ def run(tier, seed):
     for law, f in law_f.items():
         r = f.result()
         cov["tlc_runs"].append({"module": "SortMC", "law": law, "MaxLen": LAW_BOUNDS["thorough" if thorough else "quick"][law],
-                                "distinct_states": r.distinct, "result": r.violated or "no error"})
+                                "distinct_states": r.distinct, "result": r.violated or "no error", "wall_s": round(r.wall, 1)})
         if r.violated:
             raise vlib.Inconclusive("the specification itself violates a law of the property (%s): %s" % (law, r.violated))
         states += r.distinct
